@@ -244,6 +244,41 @@ def oracle(ctx, seeds=None):
                 bad = bad or not np.all(np.abs(qs_.data[k] / cf[k] - q0_.data[k]) <= 1e-11 * sc)
             if bad:
                 res.fail('%s:units-solve' % model, "snapshot of the rescaled twin (rho*2^%d, u*2^%d, x*2^%d) is not the rescaled snapshot (time %r vs %r)" % (ka, kb, kl, qs_.time, q0_.time * tf), rp); break
+    # ---------------- change of units with the implicit family on nonlinear systems: the finite-difference Jacobian perturbs each
+    # conservative component relative to ITS magnitude, so the linearised step is the rescaled one (moderate factors: the dense
+    # solve pivots on magnitudes, its round-off is not bit for bit the rescaled one -> bounded comparison on smooth data)
+    for i, (name, model) in enumerate([(a_, b_) for a_ in ('implicit', 'cranknicolson', 'gear') for b_ in ('euler', 'sw', 'burgers')] * ctx.n(1, 6)):
+        cfg = cfg1d.rand_config(rng, units=False, model=model, per=True, n=int(rng.integers(4, 8)), meshkind='uni', smooth=True,
+                                scheme=['muscl', 'minmod'] if i % 2 else ['extrapol1'], flux={'euler': 'hlle', 'sw': 'rusanov', 'burgers': None}[model])
+        if model == 'burgers':
+            cfg['prim'] = [[float(x) for x in (2.0 + 0.4 * rng.uniform(-1, 1, cfg['n']))]]
+        ka, kb, kl = int(rng.integers(-8, 9)), int(rng.choice([-7, -4, -2, 3, 5, 8])), int(rng.choice([-10, 0, 10]))
+        a, b, l = 2.0 ** ka, 2.0 ** kb, 2.0 ** kl
+        sc_cfg, cf, tf, slen = scale_cfg(cfg, a, b, l)
+        def run():
+            mod, msh, disc, f = cfg1d.build(cfg)
+            r0 = getattr(impl.integ, name)(msh, disc).solve(f, 2.0, stop={'maxit': 3})
+            mods, mshs, discs, fs = build_with_length(sc_cfg, slen)
+            rs = getattr(impl.integ, name)(mshs, discs).solve(fs, 2.0, stop={'maxit': 3})
+            return r0[-1], rs[-1], mod.neq
+        ok, out = impl.guarded(run)
+        res.case(('units-solve-implicit', model, name, kb, kl))
+        rp = dict(cfg=cfg, kind='units-solve-implicit', a=ka, b=kb, l=kl, integrator=name)
+        if not ok and 'Singular matrix' in str(out):
+            res.count('units-solve-skipped-singular'); continue
+        if not ok:
+            res.fail('%s:units-solve-implicit-raised' % model, out, rp); continue
+        q0_, qs_, neq = out
+        if q0_.isnan() or qs_.isnan():
+            res.count('units-solve-skipped-nan'); continue
+        bad = abs(qs_.time - q0_.time * tf) > 1e-9 * abs(q0_.time * tf)
+        worst = 0.0
+        for k in range(neq):
+            sc = float(np.max(np.abs(q0_.data[k]))) + 1e-300
+            worst = max(worst, float(np.max(np.abs(qs_.data[k] / cf[k] - q0_.data[k]))) / sc)
+        if bad or not worst <= 1e-6:
+            res.fail('%s:units-solve-implicit' % model, "%s: the solve in other units (rho*2^%d, u*2^%d, x*2^%d) is not the rescaled solve: relative defect %.3g (time %r vs %r)" %
+                     (name, ka, kb, kl, worst, qs_.time, q0_.time * tf), rp)
     return res
 
 
